@@ -315,6 +315,20 @@ class UndeclaredNameVisitor(NodeVisitor):
         if self.undeclared >= self.names:
             raise VisitorExit()
 
+    def visit_Assign(self, node: nodes.Assign) -> None:
+        # the value is evaluated before the target is bound
+        self.visit(node.node)
+        self.visit(node.target)
+
+    def visit_AssignBlock(self, node: nodes.AssignBlock) -> None:
+        for child in node.body:
+            self.visit(child)
+
+        if node.filter is not None:
+            self.visit(node.filter)
+
+        self.visit(node.target)
+
     def visit_For(self, node: nodes.For) -> None:
         self.visit(node.iter)
         self._visit_scope(node.target, node.test, *node.body)
